@@ -408,3 +408,32 @@ Proof.
   intro H. apply chk_assembly_complete in H. vm_compute in H. discriminate H.
 Qed.
 Print Assumptions C04_sharded_variant_guard_needed.
+
+(* non-vacuity of the k-mer-level re-compression theorem (C09X_recompress_unitig, Properties/C09.v) on the same example:
+   the combined graph of the three shards (1 + 2 + 1 nodes) satisfies [lgraph_ok] w.r.t. the loose link set, carries each
+   retained k-mer once, is loosely valid but NOT valid (it has a dangling extension bit: a link into a k-mer censored in
+   another shard), and spec_links is the part of the loose link set with both k-mers in the graph *)
+From DBG Require Check.RecompCheck Proofs.LooseGraph Proofs.LooseValid.
+Example C04_sharded_lgraph_nonvacuous :
+  exists ps gs,
+    pieces_of 64 4 2 None true ex4_reads = Some ps /\
+    omap2 (fun b order => shard_graph 4 false 2 0 2 (shard_seqs ps b) order) (buckets_of ps) ex4_orders = Some gs /\
+    map (@length _) gs = [1; 2; 1] /\
+    LooseGraph.lgraph_ok 4 false (kjoin_f 0 (kmer_colour 4 false ex4_reads))
+      (loose_links 4 false 2 ex4_reads (SH 2 None true) true) (combine_graphs gs) /\
+    NoDup (graph_kmers 4 false (combine_graphs gs)) /\
+    rvalid_loose pay 4 false (combine_graphs gs) /\ RecompCheck.rvalidb pay 4 false (combine_graphs gs) = false /\
+    length (loose_links 4 false 2 ex4_reads (SH 2 None true) true) > length (spec_links 4 false 2 (map fst ex4_reads)).
+Proof.
+  destruct C04_nonvacuous_guards as (G1 & G2 & G3).
+  assert (Hord : Forall (@NoDup dna) ex4_orders) by (repeat constructor; cbn; intuition discriminate).
+  assert (Hv : (2 <> 1)%N) by discriminate.
+  eexists. eexists. split; [vm_compute; reflexivity|]. split; [vm_compute; reflexivity|]. split; [reflexivity|].
+  match goal with |- LooseGraph.lgraph_ok _ _ _ _ (combine_graphs ?gs) /\ _ =>
+    pose proof (G_lgraph_ok 64 4 2 None false 2 0 2 ex4_reads G1 G3 (le_n 4) G2 Hv _ eq_refl ex4_orders Hord gs eq_refl) as H1;
+    pose proof (G_kmers 64 4 2 None false 2 0 2 ex4_reads G1 G3 (le_n 4) G2 Hv _ eq_refl ex4_orders Hord gs eq_refl) as [H2 _];
+    pose proof (combined_rvalid_loose 64 4 2 None false 2 0 2 ex4_reads G1 G3 (le_n 4) G2 Hv _ eq_refl ex4_orders Hord gs eq_refl) as H3
+  end.
+  split; [exact H1|]. split; [exact H2|]. split; [exact H3|]. split; [vm_compute; reflexivity|]. vm_compute. lia.
+Qed.
+Print Assumptions C04_sharded_lgraph_nonvacuous.
